@@ -50,7 +50,7 @@ def parseCall (d : Decl) (hasRead : Bool) (c : List Json) : Option (List Api × 
   | .dict .., "popd" => pure ([.dPop], hasRead, false)
   | .dict .., "del" => pure ([.dDel], hasRead, false)
   | .dict .., "iter" => pure ([.dIter (← arg 1)], hasRead, false)
-  | .progArray, "register" => pure ([.register (← arg 1) (← jBool (← c[2]?))], hasRead, false)
+  | .progArray, "register" => pure ([.register (← arg 1)], hasRead, false)
   | _, _ => none
 
 def step (j : Json) : Option String := do
